@@ -257,7 +257,7 @@ EDITS = {
         ("rw01", "crates/lib/mimium-lang/src/compiler/mirgen/convert_qualified_names.rs", "            let new_body = convert_expr(ctx, body);\n            // The module context of a module-level `let` applies to its own right-hand side only:\n            // restore the enclosing context before converting the rest of the chain.\n            ctx.current_module_context = prev_context;\n            let new_then = then.map(|t| {\n                ctx.push_scope();\n                ctx.bind_pattern_locals(&pat.pat);\n                let converted = convert_expr(ctx, t);\n                ctx.pop_scope();\n                converted\n            });\n",
          "            let new_body = convert_expr(ctx, body);\n            let new_then = then.map(|t| {\n                ctx.push_scope();\n                ctx.bind_pattern_locals(&pat.pat);\n                let converted = convert_expr(ctx, t);\n                ctx.pop_scope();\n                converted\n            });\n            ctx.current_module_context = prev_context;\n", "verus", "resolve_walk"),
         ("rw02", "crates/lib/mimium-lang/src/compiler/mirgen/convert_qualified_names.rs", "                ctx.push_scope();\n                ctx.bind_pattern_locals(&pat.pat);\n                let converted = convert_expr(ctx, t);", "                ctx.push_scope();\n                let converted = convert_expr(ctx, t);", "verus", "resolve_walk"),
-        ("rw03", "crates/lib/mimium-lang/src/compiler/mirgen/convert_qualified_names.rs", "            for param in &params {\n                ctx.bind_local(param.id);\n            }\n            let new_body = convert_expr(ctx, body);\n            ctx.pop_scope();", "            let new_body = convert_expr(ctx, body);\n            ctx.pop_scope();", "verus", "resolve_walk"),
+        ("rw03", "crates/lib/mimium-lang/src/compiler/mirgen/convert_qualified_names.rs", "            for param in &params {\n                ctx.bind_local(param.id);\n            }", "            for param in &params {\n                let _ = param;\n            }", "verus", "resolve_walk"),
         ("rw04", "crates/lib/mimium-lang/src/compiler/mirgen/convert_qualified_names.rs", "            let new_then = then.map(|t| convert_expr(ctx, t));\n            ctx.pop_scope();\n            Expr::LetRec(id, new_body, new_then).into_id(loc)", "            ctx.pop_scope();\n            let new_then = then.map(|t| convert_expr(ctx, t));\n            Expr::LetRec(id, new_body, new_then).into_id(loc)", "verus", "resolve_walk"),
         ("rw05", "crates/lib/mimium-lang/src/compiler/mirgen/convert_qualified_names.rs", "            if let Some(new_context) = ctx.module_info.module_context_map.get(&name) {\n                ctx.current_module_context = new_context.clone();\n            }\n\n            let new_body = convert_expr(ctx, body);\n\n            // Restore context\n            ctx.current_module_context = prev_context;", "            if let Some(new_context) = ctx.module_info.module_context_map.get(&name) {\n                ctx.current_module_context = new_context.clone();\n            }\n\n            let new_body = convert_expr(ctx, body);", "verus", "resolve_walk"),
         ("rw06", "crates/lib/mimium-lang/src/compiler/mirgen/convert_qualified_names.rs", "                    ctx.push_scope();\n                    bind_match_pattern_locals(ctx, &arm.pattern);\n                    let body", "                    ctx.push_scope();\n                    let body", "verus", "resolve_walk"),
